@@ -1,5 +1,6 @@
 import HappyModel.Proto
 import HappyModel.C10.Spec
+import HappyModel.C10.Distributed
 /-!
 Line-protocol driver for C10 (other side: `hv/props/c10.py`).
 
@@ -14,7 +15,8 @@ Blocks
 * `judge-entity <qcap> <kind> <cfg…>` — body: the implementation's entity transcript.
 
 `<kind> <cfg…>`: `tb cap p one init` | `lb p one` | `sw W N` | `fw W N` |
-`ad pmin pmax step fn fd wN wD one p0 tok0` | `null`.
+`ad pmin pmax step fn fd wN wD one p0 tok0` | `null` | `ind d<0/1…> w…` (the Inductor: the decisions of its
+EWMA gate and the truncated poll waits, in call order, as observed).
 -/
 namespace HappyModel.C10.Driver
 open HappyModel.Proto HappyModel.C10
@@ -26,6 +28,7 @@ inductive PS where
   | sw (c : WCfg) (s : SW)
   | fw (c : WCfg) (s : FW)
   | ad (c : ADCfg) (s : AD)
+  | orc (o : Orc)          -- the Inductor's EWMA gate, answers supplied in call order
   | null
 
 def PS.acq : PS → Nat → PS × Bool
@@ -34,6 +37,7 @@ def PS.acq : PS → Nat → PS × Bool
   | .sw c s, t => (.sw c (s.acquire c t).1, (s.acquire c t).2)
   | .fw c s, t => (.fw c (s.acquire c t).1, (s.acquire c t).2)
   | .ad c s, t => (.ad c (s.acquire c t).1, (s.acquire c t).2)
+  | .orc o, t => (.orc (orcPolicy.acq o t).1, (orcPolicy.acq o t).2)
   | .null, _ => (.null, true)
 
 def PS.tua : PS → Nat → PS × Nat
@@ -42,6 +46,7 @@ def PS.tua : PS → Nat → PS × Nat
   | .sw c s, t => (.sw c (s.tua c t).1, (s.tua c t).2)
   | .fw c s, t => (.fw c (s.tua c t).1, (s.tua c t).2)
   | .ad c s, t => (.ad c (s.tua c t).1, (s.tua c t).2)
+  | .orc o, t => (.orc (orcPolicy.tua o t).1, (orcPolicy.tua o t).2)
   | .null, _ => (.null, 0)
 
 def PS.fb : PS → Bool → PS
@@ -88,6 +93,7 @@ def parseKind : List String → Option PS
   | ["ad", pmin, pmax, step, fn, fd, wN, wD, one, p0, tok0] =>
     some (.ad ⟨natD pmin, natD pmax, natD step, natD fn, natD fd, natD wN, natD wD, natD one⟩
               ⟨natD p0, natD tok0, none⟩)
+  | "ind" :: ds :: ws => some (.orc ⟨(ds.toList.drop 1).map (· == '1'), ws.map natD⟩)
   | ["null"] => some .null
   | _ => none
 
@@ -213,11 +219,12 @@ def boundViol (ps : PS) (tol : Bool) (adm : List Nat) : Option String :=
   | .ad c _ =>
     let eps := if tol then c.one / 1000000 else 0
     if bucketOK (c.cap c.pmax + eps) c.pmax c.one adm then none else some "policy/adaptive/over-admission"
+  | .orc _ => none
   | .null => none
 
 def kindName : PS → String
   | .tb .. => "token-bucket" | .lb .. => "leaky-bucket" | .sw .. => "sliding-window"
-  | .fw .. => "fixed-window" | .ad .. => "adaptive" | .null => "null"
+  | .fw .. => "fixed-window" | .ad .. => "adaptive" | .orc .. => "inductor" | .null => "null"
 
 def judgePolicy (tol : Bool) (ps : PS) (body : List String) : List String :=
   let a := body.foldl (fun a l => judgeLine a (toks l)) {}
@@ -233,11 +240,14 @@ def judgePolicy (tol : Bool) (ps : PS) (body : List String) : List String :=
     else if !(a.drains.all fun d => drainOK (if tol then 4 else 2) d.1 d.2) then
       [s!"viol policy/{k}/drain-stalls"]
     else match ps with
-      | .ad c _ =>
+      | .ad c s0 =>
         -- in tol mode the float rate may differ from the clamp by rounding only
         let sl := if tol then c.pmax / 1000000000 + 1 else 0
-        if ratesOK (c.pmin - sl) (c.pmax + sl) a.rates then ["ok"]
-        else ["viol policy/adaptive/rate-out-of-range"]
+        if !ratesOK (c.pmin - sl) (c.pmax + sl) a.rates then ["viol policy/adaptive/rate-out-of-range"]
+        -- the bucket bound of the *current* rate, epoch by epoch (cut where the reported rate changes)
+        else if !adaptiveOK c.cap c.one (if tol then c.one / 1000000 else 0) s0.p obs then
+          ["viol policy/adaptive/over-admission-current-rate"]
+        else ["ok"]
       | _ => ["ok"]
 
 /-! ### entity runs -/
@@ -285,7 +295,11 @@ def runEntity (qcap : Nat) (ps : PS) (body : List String) : List String :=
       go e' (unj + u) (entLine e e' a :: acc) as
   let (e, unj, lines) := go (Ent.init ps) 0 [] acts
   lines.reverse ++ e.fwd.reverse.map (fun f => s!"fwd {f.1} {f.2}")
-    ++ [s!"end {e.queue.length} {e.recv.length} {e.fwd.length} {e.dropped.length}", s!"unjudged {unj}"]
+    ++ [s!"end {e.queue.length} {e.recv.length} {e.fwd.length} {e.dropped.length}"]
+    ++ (match ps, e.pol with
+        | .orc o, .orc o' => [s!"orc-left {o'.ds.length} {o'.ws.length}"]
+        | _, _ => [])
+    ++ [s!"unjudged {unj}"]
 
 /-! ### entity judge -/
 
@@ -295,14 +309,21 @@ structure EAcc where
   fwd : List (Nat × Nat) := []
   depth : Option Nat := none
   counters : List Nat := []
+  eobs : List EObs := []           -- newest first
+  wd : Bool := false               -- the harness stopped a run that made > 5000 deliveries
   bad : Bool := false
+
+def optNat (s : String) : Option Nat := if s == "-" then none else some (natD s)
 
 def ejudgeLine (a : EAcc) (ts : List String) : EAcc :=
   match ts with
-  | ["req", id, t, _, _, d, _] =>
+  | ["req", id, t, fid, _, d, p] =>
     { a with arr := (natD id, natD t) :: a.arr,
-             dropped := if d == "1" then natD id :: a.dropped else a.dropped }
-  | ["poll", _, _, _] => a
+             dropped := if d == "1" then natD id :: a.dropped else a.dropped,
+             eobs := ⟨false, natD t, fid != "-", optNat p⟩ :: a.eobs }
+  | ["poll", t, fid, p] => { a with eobs := ⟨true, natD t, fid != "-", optNat p⟩ :: a.eobs }
+  | ["watchdog"] => { a with wd := true }
+  | "orc-left" :: _ => a
   | ["fwd", id, t] => { a with fwd := (natD id, natD t) :: a.fwd }
   | ["end", depth, r, f, d] => { a with depth := some (natD depth), counters := [natD r, natD f, natD d] }
   | _ => { a with bad := true }
@@ -319,14 +340,122 @@ def judgeEntity (ps : PS) (body : List String) : List String :=
   | some depth =>
     if a.bad then ["viol entity/malformed-judge-input"]
     else if !nodupB recv then ["viol entity/malformed-judge-input duplicate-request-id"]
+    else if !noStallOK a.eobs.reverse then ["viol entity/drain/poll-not-after-fruitless-poll"]
+    else if a.wd then ["viol entity/drain/livelock"]
     else if !exactlyOnceOK recv fids dropped depth then ["viol entity/exactly-once/lost-or-duplicated"]
     else if a.counters != [recv.length, fids.length, dropped.length] then
       ["viol entity/exactly-once/counters-disagree-with-log"]
     else if !fifoOK recv fids then ["viol entity/fifo/forwarded-out-of-arrival-order"]
     else if !fwdTimesOK arr fwd then ["viol entity/forwarded-before-arrival"]
+    else if !singlePollOK none a.eobs.reverse then ["viol entity/poll/second-outstanding"]
+    else if !pollCoverOK a.eobs.reverse depth then ["viol entity/drain/queued-without-poll"]
     else match boundViol ps false (fwd.map (·.2)) with
       | some sig => [s!"viol entity/{sig}"]
-      | none => ["ok"]
+      | none =>
+        match ps with
+        | .ad c s0 =>
+          -- no feedback reaches the policy inside the entity: the rate in force is the initial one
+          if bucketOK (c.cap s0.p) s0.p c.one (fwd.map (·.2)) then ["ok"]
+          else ["viol entity/policy/adaptive/over-admission-current-rate"]
+        | _ => ["ok"]
+
+/-! ### DistributedRateLimiter
+
+`drl <W> <N> <instances>` — body: the segments in the order the engine ran them, `arr i id t` /
+`res i id t`; output: the same lines with what the segment did (`L` local rejection, `R` read issued,
+`G` global rejection, `W` write issued, `F` forwarded), then `fwd i id t` in emission order, the public
+counters of every instance and the final store contents.
+`judge-drl <W> <N> <instances>` — body: the implementation's transcript. -/
+
+def dOutS : DOut → String
+  | .localReject => "L" | .readIssued => "R" | .globalReject => "G" | .writeIssued => "W"
+  | .forwarded => "F" | .nothing => "?"
+
+def parseDAct : List String → Option DAct
+  | "arr" :: i :: id :: t :: _ => some (.arr (natD i) (natD id) (natD t))
+  | "res" :: i :: id :: t :: _ => some (.res (natD i) (natD id) (natD t))
+  | _ => none
+
+def dActS : DAct → String
+  | .arr i id t => s!"arr {i} {id} {t}"
+  | .res i id t => s!"res {i} {id} {t}"
+
+def insertSorted (w : Nat) : List Nat → List Nat
+  | [] => [w]
+  | x :: xs => if w < x then w :: x :: xs else if w == x then x :: xs else x :: insertSorted w xs
+
+def runDRL (W N n : Nat) (body : List String) : List String :=
+  let acts := body.filterMap (fun l => parseDAct (toks l))
+  let (s, lines) := acts.foldl (fun (acc : DRL × List String) a =>
+      let r := acc.1.step W N a
+      (r.1, s!"{dActS a} {dOutS r.2}" :: acc.2)) (DRL.init n, [])
+  let wins := s.store.foldl (fun acc b => insertSorted b.1 acc) []
+  lines.reverse
+    ++ s.fwd.reverse.map (fun f => s!"fwd {f.1} {f.2.1} {f.2.2}")
+    ++ (List.range n).map (fun i =>
+        let d := s.inst i
+        s!"inst {i} {d.recv} {d.fwd} {d.drop} {d.lrej} {d.grej} {d.reads} {d.writes} {d.lcnt}")
+    ++ wins.map (fun w => s!"store {w} {s.count w}")
+
+structure DAcc where
+  arrs : List (Nat × Nat × Nat) := []          -- (inst, id, t), newest first
+  outs : List (Nat × Nat × String) := []       -- (inst, id, outcome letter), newest first
+  fwd : List (Nat × Nat × Nat) := []           -- emitted (inst, id, t), newest first
+  done : List (Nat × Nat) := []                -- (id, time of the segment that forwarded it)
+  insts : List (List Nat) := []
+  open_ : Option (Nat × Nat) := none           -- the request currently between segments (sequential runs)
+  seq : Bool := true                           -- no two requests overlapped
+  bad : Bool := false
+
+def terminal (o : String) : Bool := o == "L" || o == "G" || o == "F"
+
+def djudgeLine (a : DAcc) (ts : List String) : DAcc :=
+  match ts with
+  | ["arr", i, id, t, o] =>
+    let k := (natD i, natD id)
+    { a with arrs := (natD i, natD id, natD t) :: a.arrs, outs := (natD i, natD id, o) :: a.outs,
+             seq := a.seq && a.open_.isNone, open_ := if terminal o then a.open_ else some k }
+  | ["res", i, id, t, o] =>
+    let k := (natD i, natD id)
+    { a with outs := (natD i, natD id, o) :: a.outs,
+             done := if o == "F" then (natD id, natD t) :: a.done else a.done,
+             seq := a.seq && a.open_ == some k, open_ := if terminal o then none else a.open_ }
+  | ["fwd", i, id, t] => { a with fwd := (natD i, natD id, natD t) :: a.fwd }
+  | "inst" :: rest => { a with insts := nats rest :: a.insts }
+  | ["store", _, _] => a
+  | _ => { a with bad := true }
+
+def judgeDRL (W N n : Nat) (body : List String) : List String :=
+  let a := body.foldl (fun a l => djudgeLine a (toks l)) {}
+  let arrs := a.arrs.reverse
+  let outs := a.outs.reverse
+  let fwd := a.fwd.reverse
+  let recv := arrs.map (·.2.1)
+  let withOut (p : String → Bool) := (outs.filter (fun o => p o.2.2)).map (·.2.1)
+  let dropped := withOut (fun o => o == "L" || o == "G")
+  let done := withOut terminal
+  let inflight := recv.filter (fun i => !done.contains i)
+  let cntI (i : Nat) (o : String) := (outs.filter (fun x => x.1 == i && x.2.2 == o)).length
+  let instOK := (List.range n).all fun i =>
+    a.insts.reverse.any fun r =>
+      r.take 8 == [i, (arrs.filter (·.1 == i)).length, (fwd.filter (·.1 == i)).length,
+                   cntI i "L" + cntI i "G", cntI i "L", cntI i "G", cntI i "R", cntI i "W"]
+  let arrOf (id : Nat) := ((arrs.find? (·.2.1 == id)).map (·.2.2)).getD 0
+  if a.bad then ["viol drl/malformed-judge-input"]
+  else if !nodupB recv then ["viol drl/malformed-judge-input duplicate-request-id"]
+  else if !drlExactlyOnceOK recv (fwd.map (·.2.1)) dropped inflight then ["viol drl/exactly-once/lost-or-duplicated"]
+  else if withOut (· == "F") != fwd.map (·.2.1) then ["viol drl/exactly-once/forward-counter-without-forward"]
+  else if !instOK then ["viol drl/exactly-once/counters-disagree-with-log"]
+  else if !fwdTimesOK (arrs.map (·.2)) (fwd.map (·.2)) then ["viol drl/forwarded-before-arrival"]
+  -- the store round trips took simulated time: a forward stamped before the segment that emits it is in the
+  -- engine's past (and discarded)
+  else if !fwdTimesOK a.done (fwd.map (·.2)) then ["viol drl/forward-stamped-in-the-past"]
+  else if !((List.range n).all fun i =>
+      fifoOK ((arrs.filter (·.1 == i)).map (·.2.1)) ((fwd.filter (·.1 == i)).map (·.2.1))) then
+    ["viol drl/fifo/forwarded-out-of-arrival-order"]
+  else if a.seq && !drlWindowOK W N (fwd.map (fun f => arrOf f.2.1)) then
+    ["viol drl/window/over-admission-sequential"]
+  else ["ok"]
 
 def handle (hdr : List String) (body : List String) : List String :=
   match hdr with
@@ -346,6 +475,8 @@ def handle (hdr : List String) (body : List String) : List String :=
     match parseKind kind with
     | some ps => judgeEntity ps body
     | none => ["bad-config"]
+  | ["drl", w, n, k] => runDRL (natD w) (natD n) (natD k) body
+  | ["judge-drl", w, n, k] => judgeDRL (natD w) (natD n) (natD k) body
   | _ => ["bad-mode"]
 
 end HappyModel.C10.Driver
